@@ -7,10 +7,11 @@
 // cells included), the source image, the return value (iterator offset or value) and the
 // *sequence of functor / operator calls with their arguments* (recorded by logging functors).
 //
-// Two APIs deviate from std by a documented-in-code convention (element first, accumulator /
-// current best second).  They are compared twice: "...:std-argument-order" hands the *same*
-// functor to std (what the property states) and "...:element-first" hands std the functor
-// with swapped arguments, so that any other defect of these algorithms still shows.
+// Two APIs deviate from std by a convention (element first, accumulator / current best
+// second).  They are compared twice: "...:std-argument-order" hands the *same* functor to std
+// (what the property states) and "...:either-convention" accepts the std result with the functor
+// taken either way round, so that any other defect of these algorithms still shows and the
+// control stays silent whichever convention the library finally adopts.
 #define VFH_MAIN
 #include "vfh.hxx"
 #include <algorithm>
@@ -86,7 +87,7 @@ struct Obs {
 static const char* bucket(unsigned N) { return N == 0 ? "N=0" : N == 1 ? "N=1" : N <= 10 ? "N=2..10" : "N=11..64"; }
 
 template <typename T>
-static void judge(const char* alg, unsigned N, uint64_t idx, const Obs& lib, const Obs& ref, const char* msg = "") {
+static void judge(const char* alg, unsigned N, uint64_t idx, const Obs& lib, const Obs& ref, const char* msg = "", const Obs* alt = nullptr) {
   char api[96]; std::snprintf(api, sizeof api, "%s<%s>", alg, Tr<T>::name());
   uint64_t h = vf::hash_arr(ref.img.data(), ref.img.size(), vf::hash_arr(ref.log.data(), ref.log.size(), N));
   auto dump = [&] {
@@ -104,7 +105,7 @@ static void judge(const char* alg, unsigned N, uint64_t idx, const Obs& lib, con
     return j.str();
   };
   vf::set_case(api, bucket(N), idx);
-  R.expect(api, bucket(N), idx, h, lib == ref, dump, msg);
+  R.expect(api, bucket(N), idx, h, lib == ref || (alt != nullptr && lib == *alt), dump, msg);
 }
 
 // ---- logging functors (namespace scope: one type per T, not per call site: compile time)
@@ -134,19 +135,20 @@ template <typename T> using Fn = uint64_t (*)(Buf<T>&, Buf<T>&, Buf<T>&, const C
 template <typename T> static uint64_t off(const T* it, const Buf<T>& b) { return uint64_t(it - b.data()); }
 template <typename T> static const T* cp(Buf<T>& b) { return b.data(); }
 
-enum Alg { COPY, COPY_OVL, FILL, TR_U, TR_U_INPLACE, TR_B, ACC_PLUS, ACC_OP_STD, ACC_OP_EF, IP, IP_OPS, IP_NOINIT, EQ_OP, EQ_PRED,
+enum Alg { COPY, COPY_OVL, FILL, TR_U, TR_U_INPLACE, TR_B, ACC_PLUS, ACC_PLUS_EF, ACC_OP_STD, ACC_OP_EF, IP, IP_OPS, IP_NOINIT, EQ_OP, EQ_PRED,
            FOR_EACH, GENERATE, IOTA, MIN_LT, MIN_COMP, MAX_GT, MAX_COMP_STD, MAX_COMP_EF, SWAP, NALG };
 static const char* ALGN[NALG] = {"copy", "copy/overlap-left", "fill", "transform(unary)", "transform(unary)/in-place", "transform(binary)",
-                                 "accumulate(+)", "accumulate(op):std-argument-order", "accumulate(op):element-first",
+                                 "accumulate(+)", "accumulate(+):either-operand-order", "accumulate(op):std-argument-order", "accumulate(op):either-convention",
                                  "inner_product(+,*)", "inner_product(op1,op2)", "inner_product<T>(no init)", "equal(==)", "equal(pred)",
                                  "for_each", "generate", "iota", "min_element(<)", "min_element(comp)", "max_element(>)",
-                                 "max_element(comp):std-comparator-meaning", "max_element(comp):element-first", "swap_ranges"};
+                                 "max_element(comp):std-comparator-meaning", "max_element(comp):either-convention", "swap_ranges"};
 static const char* ALGMSG[NALG] = {"", "", "", "", "", "", "std::accumulate computes acc + *it",
+                                   "control: equals acc + *it or *it + acc consistently (silent whichever convention the library adopts)",
                                    "same functor handed to both; std::accumulate calls op(acc, *it)",
-                                   "std gets op with swapped arguments (the convention documented in accumulate.hxx)", "", "",
+                                   "control: equals std::accumulate with op(acc, x) or with op(x, acc) (silent whichever convention the library adopts)", "", "",
                                    "reference: first product as initial value, then std::inner_product on the rest", "", "", "", "", "", "", "", "",
                                    "same 'less' comparator handed to both; std::max_element(first,last,comp) evaluates comp(best, *it)",
-                                   "fsalgo gets comp(new, best) = less(best, new): the convention used inside TFEL (abs_max, eigen-solvers)", ""};
+                                   "control: equals std::max_element with comp(best, new) or with comp(new, best) (silent whichever convention the library adopts)", ""};
 
 // the fsalgo side: N is a template argument
 template <unsigned N, typename T>
@@ -175,14 +177,13 @@ struct Lib {
   static uint64_t min_comp(B& p, B&, B&, C) { return off(fsa::min_element<N>::exe(cp(p), FLESS<T>()), p); }
   static uint64_t max_gt(B& p, B&, B&, C) { auto r = off(fsa::max_element<N>::exe(cp(p)), p); LOG.clear(); return r; }
   static uint64_t max_comp(B& p, B&, B&, C) { return off(fsa::max_element<N>::exe(cp(p), FLESS<T>()), p); }
-  static uint64_t max_comp_ef(B& p, B&, B&, C) { return off(fsa::max_element<N>::exe(cp(p), FLESSswap<T>()), p); }
   static uint64_t swap(B& p, B& q, B&, C) { return off(fsa::swap_ranges<N>::exe(p.data(), q.data()), q); }
   static uint64_t copy_list(std::list<T>& src, std::list<T>& dst) {
     return uint64_t(std::distance(dst.begin(), fsa::copy<N>::exe(src.cbegin(), dst.begin())));
   }
   static const Fn<T>* table() {
-    static const Fn<T> t[NALG] = {copy, copy_ovl, fill, tr_u, tr_ui, tr_b, acc_plus, acc_op, acc_op, ip, ip_ops, ip_noinit, eq_op, eq_pred,
-                                  for_each, generate, iota, min_lt, min_comp, max_gt, max_comp, max_comp_ef, swap};
+    static const Fn<T> t[NALG] = {copy, copy_ovl, fill, tr_u, tr_ui, tr_b, acc_plus, acc_plus, acc_op, acc_op, ip, ip_ops, ip_noinit, eq_op, eq_pred,
+                                  for_each, generate, iota, min_lt, min_comp, max_gt, max_comp, max_comp, swap};
     return t;
   }
 };
@@ -199,6 +200,8 @@ struct Ref {
   static uint64_t tr_b(B& p, B& q, B& r, C c) { return off(std::transform(cp(p), cp(p) + c.N, cp(q), r.data(), FB<T>()), r); }
   static uint64_t acc_plus(B& p, B&, B&, C c) { return Tr<T>::bits(std::accumulate(cp(p), cp(p) + c.N, c.init)); }
   static uint64_t acc_op(B& p, B&, B&, C c) { return Tr<T>::bits(std::accumulate(cp(p), cp(p) + c.N, c.init, FB<T>())); }
+  static uint64_t acc_plus_ef(B& p, B&, B&, C c) { T r = c.init; for (unsigned k = 0; k < c.N; ++k) r = cp(p)[k] + r; return Tr<T>::bits(r); }
+  static uint64_t max_comp_ef(B& p, B&, B&, C c) { return off(std::max_element(cp(p), cp(p) + c.N, FLESSswap<T>()), p); }
   static uint64_t acc_op_ef(B& p, B&, B&, C c) { return Tr<T>::bits(std::accumulate(cp(p), cp(p) + c.N, c.init, FBswap<T>())); }
   static uint64_t ip(B& p, B& q, B&, C c) { return Tr<T>::bits(std::inner_product(cp(p), cp(p) + c.N, cp(q), c.init)); }
   static uint64_t ip_ops(B& p, B& q, B&, C c) { return Tr<T>::bits(std::inner_product(cp(p), cp(p) + c.N, cp(q), c.init, FB<T>(), FB2<T>())); }
@@ -220,8 +223,8 @@ struct Ref {
   static uint64_t max_comp(B& p, B&, B&, C c) { return off(std::max_element(cp(p), cp(p) + c.N, FLESS<T>()), p); }
   static uint64_t swap(B& p, B& q, B&, C c) { return off(std::swap_ranges(p.data(), p.data() + c.N, q.data()), q); }
   static const Fn<T>* table() {
-    static const Fn<T> t[NALG] = {copy, copy_ovl, fill, tr_u, tr_ui, tr_b, acc_plus, acc_op, acc_op_ef, ip, ip_ops, ip_noinit, eq_op, eq_pred,
-                                  for_each, generate, iota, min_lt, min_comp, max_gt, max_comp, max_comp, swap};
+    static const Fn<T> t[NALG] = {copy, copy_ovl, fill, tr_u, tr_ui, tr_b, acc_plus, acc_plus_ef, acc_op, acc_op_ef, ip, ip_ops, ip_noinit, eq_op, eq_pred,
+                                  for_each, generate, iota, min_lt, min_comp, max_gt, max_comp, max_comp_ef, swap};
     return t;
   }
 };
@@ -256,7 +259,12 @@ static void run_case(const vf::Args& a, uint64_t idx, unsigned N, const Fn<T>* l
       o.ret = (w == 0 ? lib[alg] : ref[alg])(p, q, r, c);
       p.image(o.img); q.image(o.img); r.image(o.img); o.log = LOG;
     }
-    judge<T>(ALGN[alg], N, idx, ol, orf, ALGMSG[alg]);
+    if (alg == ACC_PLUS_EF || alg == ACC_OP_EF || alg == MAX_COMP_EF) {
+      // control: the std-convention reference of the previous slot is an accepted alternative
+      Obs alt; Buf<T> p, q, r; prep(c, alg, p, q, r); LOG.clear();
+      alt.ret = ref[alg - 1](p, q, r, c); p.image(alt.img); q.image(alt.img); r.image(alt.img); alt.log = LOG;
+      judge<T>(ALGN[alg], N, idx, ol, orf, ALGMSG[alg], &alt);
+    } else judge<T>(ALGN[alg], N, idx, ol, orf, ALGMSG[alg]);
   }
   {  // copy through non-random-access iterators (the other overload set of copy<2..10>)
     Obs ol, orf;
